@@ -143,6 +143,33 @@ theorem still_failing_fails (P : Params κ) (cfg : Cfg) (defs : Defs) (fuel : Na
     obtain ⟨hc, _, _⟩ := execTarget_false e
     simp [e2, failT, hc]
 
+/-- **post_failing_fails** (continuation round; the case the seeded mutations C14-m14 / C05-m14 break). Whatever the checks
+    said *before* the command — in particular when they passed on the state an earlier build left behind — if the command
+    ran in this step and the checks are false in the workspace it leaves behind, the target fails and the cache is exactly
+    what it was. (`still_failing_fails` is the special case in which the checks also failed before.) -/
+theorem post_failing_fails (P : Params κ) (cfg : Cfg) (defs : Defs) (fuel : Nat) (t : Target) (s : BState κ)
+    (hm : cfg.minimal = false)
+    (hpost : checksPass (fsAfter P defs t s.fs) t.checks = false)
+    (s' : BState κ) (hs : buildTarget P cfg defs fuel t s = s')
+    (hran : s'.log = t.label :: s.log) :
+    s'.st t.label = some failStat ∧ s'.cache = s.cache := by
+  have hcase := buildTarget_all P cfg defs fuel t s hm
+  rw [hs] at hcase
+  cases hcase with
+  | depFailed h e => simp [e, failT]
+  | noHash h h2 e => simp [e, failT]
+  | hit ohs h h2 e =>
+    obtain ⟨r, fs', hr, _, _, _, hchk, hrest, hs'⟩ := tryHit_all_some hm e
+    have hl : s'.log = s.log := by rw [hs']
+    rw [hl] at hran
+    exact absurd hran.symm (List.cons_ne_self _ _)
+  | ran ohs h h2 h3 e =>
+    obtain ⟨_, hfs, hc, _⟩ := execTarget_true e
+    rw [hfs, hpost] at hc; cases hc
+  | failed ohs s2 h h2 h3 e e2 =>
+    obtain ⟨hc, _, _⟩ := execTarget_false e
+    simp [e2, failT, hc]
+
 /-- hypotheses of the theorems above are satisfiable: a target with a check on a file that does not exist -/
 example : ∃ (t : Target) (fs : FS), ChecksOffOutputs t ∧ checksPass fs t.checks = false :=
   ⟨{ label := [97], cmd := ⟨[], 0, [], [], false⟩, inputs := [], outs := [⟨false, [111]⟩], deps := [], hdeps := [], ldeps := [],
